@@ -218,6 +218,16 @@ def _fit(R, rng, ctx, i=0):
             if keys != sorted(keys) and sizes != [len(defn["sensor_noises"][k]) for k in sorted(keys)]:
                 break
         R.stats.inc("fits_with_unsorted_unequal_sensors")
+    if i % 4 == 3:
+        # extreme but finite positive noise magnitudes ("all positive noise assignments")
+        import copy
+
+        defn = copy.deepcopy(defn)
+        f_p = [1e155, 1e-150, 1e154, 1e12, 1e160, 1e-12, 1e100][(i // 4) % 7]
+        f_s = rng.choice([1.0, f_p, 1.0 / f_p if f_p < 1e150 else 1.0])
+        defn["process_noise"] = {k: v * f_p for k, v in defn["process_noise"].items()}
+        defn["sensor_noises"] = {sn: {r: v * f_s for r, v in d.items()} for sn, d in defn["sensor_noises"].items()}
+        R.stats.inc("fits_with_extreme_noise_magnitudes")
     b = build.Built(defn)
     cfg = python.Config(common_subexpression_elimination=False, extra_validation=extra,
                         innovation_filtering=rng.choice([None, 5.0]), max_dt_sec=rng.choice([0.1, 0.5]))
